@@ -344,7 +344,9 @@ var expectedProbes = map[string][]string{
 		"fault.cache_bytes_corrupted", "fault.write_eio", "fault.write_enospc", "fault.write_short", "fault.mtime_collision", "fault.enumerated_prefixes", "probe.half_copied_font"},
 	"faultdisk": {"fault.byte_trunc", "fault.byte_flip", "fault.byte_set16", "fault.byte_set32", "fault.byte_zero", "fault.byte_swap", "fault.io_eio", "fault.io_eof", "fault.io_short",
 		"outcome.open-error", "outcome.opened", "check.pristine_equivalence"},
-	"schedsim": {"probe.switch_landed_inside_library_call", "plan.sweep", "plan.random", "op.glyphs", "op.fontq", "op.hbshape", "op.shape", "op.split", "op.wrap", "op.fmadd", "op.fmresolve", "op.vars"},
+	"schedsim":  {"probe.switch_landed_inside_library_call", "plan.sweep", "plan.random", "op.glyphs", "op.fontq", "op.hbshape", "op.shape", "op.split", "op.wrap", "op.fmadd", "op.fmresolve", "op.vars"},
+	"segreuse":  {"probe.useg_reused", "probe.useg_iterators_interleaved", "probe.useg_input_scribbled"},
+	"itemreuse": {"probe.segmenter_reused", "probe.bidi_mixed", "probe.vertical_orientation_resolved"},
 	"fontmapsim": {"probe.repeat_lookup_cache_enabled", "probe.lookup_after_other_lookups", "probe.cache_eviction", "probe.add_after_lookups", "probe.system_fonts_used",
 		"answered_by_step_1", "answered_by_step_2", "answered_by_step_3", "answered_by_step_4", "answered_by_step_5"},
 }
